@@ -272,6 +272,19 @@ func cmdRun(args []string) {
 						continue
 					}
 					full.Prefix = minimizePrefix(full, path, v.Prop, postDeadline)
+					// then the plan itself, each candidate in a fresh process
+					key := pv.key()
+					small, _ := minimizeUntil(full, func(q *Plan) bool {
+						qq := q.clone()
+						qq.Violation = &Violation{Prop: pv.Prop, Invariant: pv.Invariant, Class: pv.Class}
+						if qq.save(path) != nil {
+							return false
+						}
+						_ = key
+						return reproducesFresh(path, pv.Prop)
+					}, 120, postDeadline)
+					small.Violation = &pv
+					full = small
 					full.save(path)
 					min, v = full, pv
 					ws.Extra["violations_that_need_earlier_runs_in_the_same_process"]++
